@@ -85,6 +85,12 @@ Next == /\ nops' = nops + 1
            \/ \E P \in PremSets : InsertLogical(P)
            \/ \E h \in H : \E P \in PremSets : AddJust(h, P)
            \/ \E h \in H : Retract(h)
+(* for simulation runs: no retractions of absent handles (they are no-ops and waste the walk) *)
+NextSim == /\ nops' = nops + 1
+           /\ \/ InsertExplicit
+              \/ \E P \in PremSets : InsertLogical(P)
+              \/ \E h \in H : \E P \in PremSets : AddJust(h, P)
+              \/ \E h \in present : Retract(h)
 Spec == Init /\ [][Next]_vars
 
 ----------------------------------------------------------------------------------
@@ -112,7 +118,7 @@ Obs == [ issued |-> next - 1,
          logical  |-> [h \in H |-> h \in present /\ h \in logical],
          explicit |-> [h \in H |-> h \in present /\ h \notin logical] ]
 
-Bound == nops < MaxOps
+Bound == nops <= MaxOps   \* successors that violate a CONSTRAINT are dropped before ACTION_CONSTRAINT prints them
 View  == <<next, logical, justs, present, retracted, live>>
 StateRec == [next |-> next, logical |-> logical, justs |-> justs, present |-> present, retracted |-> retracted]
 Edge == PrintT(ToJson([s |-> StateRec, l |-> last', o |-> Obs', t |-> StateRec']))
